@@ -7,7 +7,7 @@
    LL(1) parser), [doc_* bs] is the intended document: rows grouped by runs of equal fingerprint. *)
 From Coq Require Import List NArith ZArith Bool Ascii String.
 From Qryn Require Import model.GoFloat model.JsonStream proofs.JsonStreamProofs proofs.JsonSpliceProofs
-  proofs.GoFloatProofs proofs.JsonNumProofs proofs.JsonSeriesProofs proofs.GoMarshalProofs proofs.GoFloatReadProofs.
+  proofs.GoFloatProofs proofs.JsonNumProofs proofs.JsonSeriesProofs proofs.GoMarshalProofs proofs.GoFloatReadProofs proofs.GoFloatRoundProofs.
 Import ListNotations.
 Open Scope string_scope.
 Open Scope list_scope.
@@ -473,4 +473,15 @@ Print Assumptions int_text_lossless.
 Example canned_label_bodies :
   render (enc_labels []) = "{""status"": ""success"",""data"": []}" /\
   render (enc_series []) = "{""status"":""success"", ""data"":[]}".
+Proof. split; vm_compute; reflexivity. Qed.
+
+(* the rounding of model/GoFloat.v (float64(int64), float64(ns)/1e9, float64(ms)/1000) is correct rounding: the result
+   m * 2^e of [rne a b] is within half a unit of the last place of a / b, i.e. |m * 2^e - a/b| <= 2^e / 2, for all positive a, b
+   (stated without fractions; the agreement with Coq's IEEE 754 specification is evaluated on every generated timestamp) *)
+Theorem float_quotient_correctly_rounded : forall a b, (0 < a)%Z -> (0 < b)%Z ->
+  (2 * Z.abs (fst (rne a b) * 2 ^ Z.max (snd (rne a b)) 0 * b - a * 2 ^ Z.max (- snd (rne a b)) 0)
+   <= b * 2 ^ Z.max (snd (rne a b)) 0)%Z.
+Proof. exact rne_half_ulp. Qed.
+Print Assumptions float_quotient_correctly_rounded.
+Example rne_met : rne 1700000000123456789 1 = (6640625000482253, 8)%Z /\ rne 1 1000 = (4611686018427388, -62)%Z.
 Proof. split; vm_compute; reflexivity. Qed.
